@@ -122,6 +122,16 @@ func (vfs *BasePathFS) errRootDir() error {
 	return e.InvalidArgument
 }
 
+// errRootExists returns the error of an operation that can't replace the root directory,
+// the one a MemFS reports when its own root directory is the destination of a rename.
+func (vfs *BasePathFS) errRootExists() error {
+	var e avfs.Errors
+
+	e.SetOSType(vfs.OSType())
+
+	return e.FileExists
+}
+
 // ToBasePath transforms a BasePathFS path to an internal path.
 // When the base path is "/base/path", ToBasePath("/tmp") returns "/base/path/tmp".
 func (vfs *BasePathFS) ToBasePath(path string) string {
